@@ -72,6 +72,11 @@ func init() {
 	add("C17", "C17.answers (each request handler calls rpc.Respond on every path to its return: a suspended node that lets a sync request through the gate does answer it).", as1(answersRule, "C17.answers"))
 	add("C03", "C03.perevent (one full consensus pass after every inserted event — Hashgraph.InsertEvent has no caller but InsertEventAndRunConsensus, which runs the four passes in order before every success return: with known finding F-C03-2 the consensus result is exact only for this schedule; shared with C01.perevent).", as1(perEventRule, "C03.perevent"))
 	add("C01", "C01.perevent (see C03.perevent).", as1(perEventRule, "C01.perevent"))
+	add("C16", "C16.dberrs (every BadgerStore method, and every closure it hands to the database, returns an error on the failing edge of each error it tests — transaction Set / Commit / Get, item Value, Unmarshal — or classifies it first: a lost write never looks stored, a failed read never yields a zero value as if stored; shared with C11.dberrs).", as1(dbErrRule, "C16.dberrs"))
+	add("C11", "C11.dberrs (see C16.dberrs: what bootstrap replays is what was acknowledged).", as1(dbErrRule, "C11.dberrs"))
+	add("C07", "C07.knownkey (the store resolves a creator by its full public key: ParticipantEventsCache.participantID succeeds only under a positive ByPubKey lookup of the key string — not by the 32-bit hash of the key, which a foreign key can be ground to collide with; shared with C16.knownkey).", as1(knownKeyRule, "C07.knownkey"))
+	add("C16", "C16.knownkey (see C07.knownkey: per-creator records are keyed by the full public key).", as1(knownKeyRule, "C16.knownkey"))
+	add("C05", "C05.everytx (core.addTransactions queues every transaction it is given — no filter on content: a submission that was acknowledged is never dropped, and two identical submissions are two transactions).", as1(everyTxRule, "C05.everytx"))
 	add("C01", "C01.mapcut (see C03.mapcut).", as(mapCutRule, "C01.mapcut", consensusFuncs))
 	add("C13", "C13.mapcut (see C03.mapcut, for the functions that build a frame).", as(mapCutRule, "C13.mapcut", frameFuncs))
 }
@@ -322,7 +327,7 @@ func isErrClassifier(c *ssa.CallCommon) bool {
 		return true
 	}
 	n := f.Name()
-	return strings.HasPrefix(n, "Is") && f.Pkg() != nil && (f.Pkg().Path() == modPath || strings.HasPrefix(f.Pkg().Path(), modPath+"/"))
+	return (strings.HasPrefix(n, "Is") || strings.HasPrefix(n, "is")) && f.Pkg() != nil && (f.Pkg().Path() == modPath || strings.HasPrefix(f.Pkg().Path(), modPath+"/"))
 }
 
 // consensusErrRule: in the consensus functions, when a call into the module (a store read, another consensus function)
@@ -503,6 +508,9 @@ func errPropFuncs(p *Prog, r *Report, rule string, fs []*ssa.Function, calleeOK 
 // an answer (history below a fast-sync frame, a joiner's first events). Keyed by function, callee and — where the function
 // makes other calls to the same callee that must propagate — the provenance of the argument.
 func absentIsAnAnswer(f *ssa.Function, callee *types.Func, c *ssa.Call) string {
+	for f.Parent() != nil { // a closure belongs to the function that creates it
+		f = f.Parent()
+	}
 	name := f.Name()
 	if o, ok := f.Object().(*types.Func); ok && o != nil {
 		sn := shortName(o) // reference name (renamed anchors resolved)
@@ -528,6 +536,10 @@ func absentIsAnAnswer(f *ssa.Function, callee *types.Func, c *ssa.Call) string {
 		return "a root holds up to ROOT_DEPTH earlier events: fewer when the creator has fewer"
 	case "Bootstrap/dbGetPeerSet":
 		return "a database without a genesis peer-set is an empty database (first start with --bootstrap): nothing to replay"
+	case "addParticipant/dbGetRoot":
+		return "a participant without a root on disk gets one now (the failure of the lookup IS the condition; C16.dbguard checks that the lookup is the database's)"
+	case "dbParticipantEvents/ValueCopy", "dbTopologicalEvents/ValueCopy":
+		return "observation O-C16-1 (DESIGN 9.9): the listing ends silently at the first value that cannot be read; a read failure of a committed value could not be produced in this sandbox, so it is recorded as an observation and not armed"
 	case "DecideRoundReceived/GetRound":
 		return "a joiner's first event can have a round far below the rounds still cached (comment in the code): the search ends"
 	}
@@ -1497,4 +1509,171 @@ func sameGetterCall(a, b ssa.Value) bool {
 		}
 	}
 	return true
+}
+
+/* ---------- C16.dberrs: the Badger store reports every failure it tests (mutation scan of badger_store.go) ---------- */
+
+// dbErrRule: in the methods of BadgerStore (and the closures they hand to db.View / db.Update), when the error of ANY call —
+// a transaction Set / Commit / Get, an item Value, an Unmarshal, another store method — is tested, every path from the
+// failing edge ends in an error return, unless the function asks which error it is (key not found → cache miss …). A
+// swallowed write error makes a lost record look stored (C16: exact, durable map; C11: what bootstrap replays is what was
+// acknowledged); a swallowed read / decode error hands back a zero value as if it had been stored.
+func dbErrRule(p *Prog, r *Report, rule string) {
+	r.Rule(rule, 40, "every BadgerStore method returns an error on the failing edge of each error it tests (or classifies it first)")
+	var fs []*ssa.Function
+	for _, fn := range p.Mod {
+		if fn.Synthetic != "" || fn.Parent() != nil {
+			continue
+		}
+		if recvNamedSig(fn) == "BadgerStore" {
+			fs = append(fs, withAnon(fn)...)
+		}
+	}
+	sort.Slice(fs, func(i, j int) bool { return fs[i].String() < fs[j].String() })
+	n, nEx, nCls, _ := errPropFuncs(p, r, rule, fs, func(cf *types.Func, sf *ssa.Function) bool {
+		if cf != nil && recvNamed(cf) == "InmemStore" {
+			return false // the cache in front of the database: a miss leads to the database reader (C16.readthrough)
+		}
+		return cf != nil || sf != nil
+	},
+		"a failed write looks stored, or a failed read / decode hands back a zero value as if it had been stored")
+	r.Note("%s: %d tested errors in %d BadgerStore functions and closures (%d classified by the function, %d sites of the table absentIsAnAnswer)", rule, n, len(fs), nCls, nEx)
+}
+
+/* ---------- C07.knownkey (seed C07h): a participant is known by its full public key ---------- */
+
+// knownKeyRule: ParticipantEventsCache.participantID — the function through which every per-creator lookup of the store
+// (last event of a creator, its events by index) resolves the creator — succeeds only under a positive comma-ok lookup of
+// the creator's key STRING in a ByPubKey map, and the id it returns is that peer's. Resolving by the 32-bit hash of the key
+// lets an unknown key that collides with a validator's id (seconds of offline search) pass checkSelfParent as that validator
+// and extend its chain.
+func knownKeyRule(p *Prog, r *Report, rule string) {
+	r.Rule(rule, 1, "ParticipantEventsCache.participantID succeeds only for a key found in ByPubKey (full public key), and returns that peer's id")
+	fn := p.Func(HG, "ParticipantEventsCache", "participantID")
+	if fn == nil {
+		r.Anchor(rule, "hashgraph.(*ParticipantEventsCache).participantID")
+		return
+	}
+	param := ssa.Value(fn.Params[len(fn.Params)-1])
+	var lk *ssa.Lookup
+	q := func(l Lit) bool {
+		x, present, ok := lookupLit(l)
+		if !ok || !present {
+			return false
+		}
+		fv, _ := fieldOf(x.X)
+		if fv == nil || refName(fv) != "ByPubKey" {
+			return false
+		}
+		if !dependsOn(x.Index, func(v ssa.Value) bool { return v == param }) {
+			return false
+		}
+		lk = x
+		return true
+	}
+	n := 0
+	for _, rp := range p.succRets(fn, errNil, 1) {
+		n++
+		g, _ := p.holdsAtRet(rp, []Pred{q}, all(1))
+		okID := false
+		for _, r0 := range retPointsOf(rp.ret, 0) {
+			if rp.pred != nil && r0.pred != nil && r0.pred != rp.pred {
+				continue
+			}
+			// the id of the peer found: Peer.ID() on the looked-up value (or its id field)
+			if dependsOn(r0.val, func(v ssa.Value) bool {
+				e, ok := v.(*ssa.Extract)
+				return ok && lk != nil && e.Tuple == ssa.Value(lk)
+			}) {
+				okID = true
+			}
+		}
+		r.Check(g && okID, rule, "participantID:success-only-for-a-key-in-ByPubKey", p.ipos(rp.ret), fnName(fn), "known participant = full public key found in ByPubKey; the id returned is that peer's",
+			fmt.Sprintf("participantID can succeed without a positive lookup of the key string in a ByPubKey map (%v), or returns an id not taken from the peer found (%v): a creator is then 'known' by the 32-bit hash of its key, and a colliding foreign key is admitted into a validator's chain", g, okID))
+	}
+	if n == 0 {
+		r.Fail(rule, "participantID:success-returns", p.pos(fn.Pos()), fnName(fn), "no success return found")
+	}
+}
+
+/* ---------- C05.everytx (seed C05h): every submitted transaction enters the pool ---------- */
+
+// everyTxRule: core.addTransactions puts EVERY element of its argument into the transaction pool: either the whole slice is
+// appended on every path to the return, or a loop over the argument appends each element on every iteration (no filter —
+// "already pending", "empty", "too large": a transaction acknowledged to the submitter and then dropped is lost, and two
+// identical submissions are two transactions).
+func everyTxRule(p *Prog, r *Report, rule string) {
+	r.Rule(rule, 1, "core.addTransactions appends every submitted transaction to the pool (whole-slice append on every path, or a total loop)")
+	fn := p.Func(NODE, "core", "addTransactions")
+	fPool := p.Field(NODE, "core", "transactionPool")
+	if fn == nil || fPool == nil || len(fn.Params) < 2 {
+		r.Anchor(rule, "node.(*core).addTransactions / core.transactionPool")
+		return
+	}
+	param := ssa.Value(fn.Params[len(fn.Params)-1])
+	fromParam := func(v ssa.Value) bool { return flowsFrom(v, func(x ssa.Value) bool { return x == param }) }
+	whole := false
+	for _, st := range storesIntoField(fn, fPool) {
+		c, isC := unwrap(st.Val).(*ssa.Call)
+		if !isC {
+			continue
+		}
+		if bi, isB := c.Call.Value.(*ssa.Builtin); !isB || bi.Name() != "append" || len(c.Call.Args) != 2 {
+			continue
+		}
+		if fromParam(c.Call.Args[1]) {
+			// the whole argument: must happen on every path to every return
+			all := true
+			for _, b := range fn.Blocks {
+				if ret, isRet := b.Instrs[len(b.Instrs)-1].(*ssa.Return); isRet && (b.Index == 0 || len(b.Preds) > 0) {
+					if !dominates(st, ret) {
+						all = false
+					}
+				}
+			}
+			if all {
+				whole = true
+			}
+		}
+	}
+	if whole {
+		r.Check(true, rule, "addTransactions:every-transaction-appended", p.pos(fn.Pos()), fnName(fn), "the whole argument is appended on every path", "")
+		return
+	}
+	// element by element
+	loops := naturalLoops(fn)
+	ok, why, n := true, "", 0
+	for _, lp := range loops {
+		src, okS := loopSourceOf(fn, lp)
+		if !okS || src == nil || !fromParam(src) {
+			continue
+		}
+		var acc []ssa.Instruction
+		for _, a := range accumulators(lp) {
+			// stores into the pool field inside the loop count as accumulation as well
+			acc = append(acc, a)
+		}
+		for b := range lp.body {
+			for _, in := range b.Instrs {
+				if st, isSt := in.(*ssa.Store); isSt {
+					if f, _ := fieldOf(st.Addr); f == fPool {
+						acc = append(acc, in)
+					} else if fa, isFA := st.Addr.(*ssa.FieldAddr); isFA && fieldVar(fa.X.Type(), fa.Field) == fPool {
+						acc = append(acc, in)
+					}
+				}
+			}
+		}
+		if len(acc) == 0 {
+			continue
+		}
+		n++
+		if bad := p.skippedIteration(lp, acc); bad != "" {
+			ok, why = false, "in the loop over the submitted transactions "+bad+": a transaction that was acknowledged to its submitter is not queued"
+		}
+	}
+	if n == 0 {
+		ok, why = false, "addTransactions neither appends its whole argument on every path nor loops over it appending each element"
+	}
+	r.Check(ok, rule, "addTransactions:every-transaction-appended", p.pos(fn.Pos()), fnName(fn), "each submitted transaction is appended", why)
 }
